@@ -2,7 +2,7 @@ SPEC = {
     "id": "C06",
     "level": "other",
     "sidecars": ["fingerprint_url", "normalize_url"],
-    "functions": ["ural/fingerprint_url.py:strip_lang_subdomains_from_hostname", "ural/fingerprint_url.py:lang_query_item_filter", "ural/normalize_url.py:should_strip_query_item"],
+    "functions": ["ural/fingerprint_url.py:strip_lang_subdomains_from_hostname", "ural/fingerprint_url.py:strip_lang_subdomain_from_hostname", "ural/fingerprint_url.py:lang_query_item_filter", "ural/normalize_url.py:should_strip_query_item"],
     "bounded": ["bcheck.c06"],
     "explanation": (
         "Deciding step is BOUNDED: fingerprint_url(T(u)) == fingerprint_url(u) for case flips of every component, ports, ISO-3166 language labels "
